@@ -369,6 +369,8 @@ PROPS = {
              "bound": "5 scenarios on a template module with 30+ populated reference sites: all names conflict / identical copy / disjoint names / into empty / from empty", "timeout": 600, "extra_modules": ["tokenizer"], "validate": 5},
             {"engine": "E2", "module": "lib", "harness": "h_merge_named_union", "msg_prefix": "C09", "functions": ["merge::merge_function", "merge::merge_group", "merge::merge_user_rights", "merge::merge_variant_coding", "merge::rename_objects"],
              "bound": "FUNCTION / GROUP / USER_RIGHTS / VARIANT_CODING from B referring to objects that are renamed by the merge (2 scenarios)", "timeout": 600, "extra_modules": ["tokenizer"], "validate": 2},
+            {"engine": "E2", "module": "lib", "harness": "h_merge_unique_name", "msg_prefix": "C09", "functions": ["merge::make_unique_name", "merge::calculate_item_actions", "merge::merge_unit", "merge::rename_unit_refs"],
+             "bound": "UNIT namespace with pre-existing X.MERGE / X.MERGE2 names in A and/or B (symbolic presence bits), conflicting X, one COMPU_METHOD of B per unit of B: every REF_UNIT still designates B's unit", "timeout": 400, "extra_modules": ["tokenizer"]},
             {"engine": "E2", "module": "lib", "harness": "h_merge_same_name_across_namespaces", "functions": ["merge::merge_modules", "merge::rename_*", "merge::merge_function", "merge::merge_group", "merge::merge_frame", "merge::merge_transformer", "checker::check"],
              "bound": "one name used in all ten namespaces with every kind of reference populated; exactly one of 8 renaming namespaces conflicts between A and B: no dangling reference afterwards, references into the other namespaces keep the plain name", "timeout": 400, "extra_modules": ["tokenizer"], "max_steps": 40000000, "must_cover": ["merge_same_name_end"]},
             {"engine": "E2", "module": "lib", "harness": "h_merge_twin_refs", "functions": ["merge::merge_objects", "merge::calculate_item_actions", "merge::rename_objects", "merge::rename_typedef_refs"],
